@@ -325,6 +325,21 @@ def accessors(chk, F):
                 ok = v[0] == "call" and v[1] == ATOMIC + "load" and field_of(v[2][0]) == "used"
     chk.decide(ok and len(ps) == 1, "peak-accessors", "Alloc::reset_max", "store-current-used", fn.where(),
                "reset_max stores the current `used` into `max`", "reset_max does not store used.load() into max")
+    # load-then-store is not atomic: an allocation that publishes its usage (fetch_add on used, fetch_max on max) between the
+    # two is overwritten.  The store must be followed by a read-modify-write that re-publishes the current usage.
+    republish = False
+    for p in ps:
+        seen_store = False
+        for ev in p.events:
+            if ev[0] == "call" and ev[2] == ATOMIC + "store" and field_of(ev[3][0]) == "max":
+                seen_store = True
+            elif seen_store and ev[0] == "call" and ev[2] == ATOMIC + "fetch_max" and field_of(ev[3][0]) == "max":
+                v = ev[3][1]
+                republish = v[0] == "call" and v[1] == ATOMIC + "load" and field_of(v[2][0]) == "used"
+    chk.decide(republish, "peak-accessors", "Alloc::reset_max", "reset-does-not-lose-concurrent-peak", fn.where(),
+               "after the store, reset_max re-publishes the current usage with fetch_max (an allocation racing with the reset is not lost)",
+               "reset_max is a plain load-then-store: an allocation on another thread that lands between the load and the store is wiped from "
+               "the peak (get_max() returned 0 with 1000 bytes live)")
     fn = F.find(CRATE, "Alloc::<A>::get_max")
     ps = sympath.enumerate_paths(fn)
     ok = len(ps) == 1 and ps[0].ret[0] == "call" and ps[0].ret[1] == ATOMIC + "load" and field_of(ps[0].ret[2][0]) == "max"
